@@ -10,16 +10,26 @@
 //	types        int (and named types over it) ↦ Int; intN / uintN / uint / uintptr ↦ BitVec N
 //	             with the signedness kept by the translator; bool ↦ Bool (conditions ↦ Prop);
 //	             float64 only in functions marked exactFloat, and there only as the conversion
-//	             float64(integer) / an integral constant (↦ the exact integer)
+//	             float64(integer) / an integral constant (↦ the exact integer);
+//	             named types listed in kernelSpec.idTypes ↦ Nat (opaque identities: == / != only);
+//	             a result of type error ↦ Option Cause (Cause = generated inductive of the sentinels)
 //	statements   x := e, x = e, x op= e, x++, x--, var x T [= e], return e[, e...],
 //	             if c {..} [else {..} | else if ..], switch [tag] { case C, D: .. default: .. }
-//	             (no init statements, no loops, no break / fallthrough / goto, no shadowing);
-//	             an if / switch none of whose branches returns may assign ONE outer variable
+//	             (no init statements, no break / fallthrough in a switch, no goto / labels, no
+//	             shadowing); an if / switch none of whose branches jumps may assign outer
+//	             variables (joined as a tuple);
+//	             for [i,] x := range <parameterised slice / map> { .. } with return / break /
+//	             continue ↦ a structurally recursive definition over List (see emit); no nested
+//	             loops, no 3-clause for, no assignment to the range variables;
+//	             x := <parameterised slice>[i] ↦ match GoSem.index? .. (the kernel then returns
+//	             GoSem.Res: an index out of range is Res.panic)
 //	expressions  literals and named constants (through go/types constant values), parameters and
 //	             locals, + - * / % (truncated), & | ^ &^, << >>, unary - ^ !, comparisons,
-//	             && ||, integer conversions T(x), bits.Len64, calls of earlier whitelisted kernels
-//	field reads  only those listed in the per-function parameterisation table (kernelSpec.fields):
-//	             the listed expression becomes a parameter of the Lean definition
+//	             && ||, integer conversions T(x), bits.Len64, calls of earlier whitelisted kernels,
+//	             len(<parameterised slice>), x.M() / x.f of a slice element through the projection
+//	             table; error results nil / ErrX / &T{.., Err: ErrX}
+//	field reads  only those listed in the per-function parameterisation table (kernelSpec.fields,
+//	             kernelSpec.slices): the listed expression becomes a parameter of the Lean definition
 package main
 
 import (
@@ -31,6 +41,7 @@ import (
 	"math/big"
 	"os"
 	"path/filepath"
+	"sort"
 	"strings"
 
 	"golang.org/x/tools/go/packages"
@@ -44,14 +55,29 @@ func init() { extraWriters = append(extraWriters, writeKernels) }
 // function is replaced by the parameter `name`, whose type is the Go type of the expression.
 type kField struct{ expr, name string }
 
+// kSlice: the Go slice expression `expr` (read through a receiver / pointer parameter) becomes
+// the parameter `name : List elem`.  Elements are only observed through the listed members
+// (method calls without arguments or field reads on an element ↦ projections of `elem`).
+type kSlice struct {
+	kField
+	elem string            // Lean element type
+	proj map[string]string // Go method / field name of an element ↦ projection of elem
+	// isMap: the expression is a Go map whose VALUES are iterated (`for _, v := range m`); the
+	// list is the values in an arbitrary order — the equality theorems quantify over all lists,
+	// hence over all iteration orders.  No range key, no indexing.
+	isMap bool
+}
+
 type kernelSpec struct {
 	pkg        string // "acmelib" or "dbc"
 	file       string // base name of the source file
 	goName     string // Recv.Name as printed by funcName
 	lean       string // name of the generated definition (namespace Acme.Gen.K)
 	fields     []kField
-	exactFloat bool   // float64(integer expr) ↦ the exact integer; integral float constants ↦ Int
-	model      string // the hand-written model function it is proved equal to (documentation)
+	slices     []kSlice
+	idTypes    []string // named Go types used as opaque identities (↦ Nat; only == and != allowed)
+	exactFloat bool     // float64(integer expr) ↦ the exact integer; integral float constants ↦ Int
+	model      string   // the hand-written model function it is proved equal to (documentation)
 }
 
 var kernelSpecs = []kernelSpec{
@@ -74,7 +100,54 @@ var kernelSpecs = []kernelSpec{
 		model:  "Acme.CanId.calcOp"},
 	{pkg: "acmelib", file: "signal_type.go", goName: "calcTypeRange", lean: "calcTypeRange",
 		exactFloat: true, model: "Acme.Arith.typeRange"},
+
+	// the acceptance checks of the payload layout (property C01)
+	{pkg: "acmelib", file: "signal_layout.go", goName: "SignalLayout.verifyBeforeInsert", lean: "verifyBeforeInsert",
+		fields: []kField{{"sl.size", "cap"}, {"sig.GetSize()", "sz"}},
+		slices: []kSlice{layoutSignals}, model: "Acme.Layout.verifyInsert"},
+	{pkg: "acmelib", file: "signal_layout.go", goName: "SignalLayout.verifyBeforeAppend", lean: "verifyBeforeAppend",
+		fields: []kField{{"sl.size", "cap"}, {"sig.GetSize()", "sz"}},
+		slices: []kSlice{layoutSignals}, model: "Acme.Layout.verifyAppend"},
+	{pkg: "acmelib", file: "signal_layout.go", goName: "SignalLayout.verifyBeforeShrink", lean: "verifyBeforeShrink",
+		fields: []kField{{"sig.GetSize()", "sz"}}, model: "Acme.Layout.verifyShrink"},
+	{pkg: "acmelib", file: "signal_layout.go", goName: "SignalLayout.verifyBeforeGrow", lean: "verifyBeforeGrow",
+		fields:  []kField{{"sl.size", "cap"}, {"sig.EntityID()", "id"}},
+		slices:  []kSlice{layoutSignals},
+		idTypes: []string{"EntityID"}, model: "Acme.Layout.verifyGrow"},
+	{pkg: "acmelib", file: "signal_layout.go", goName: "SignalLayout.verifyBeforeResize", lean: "verifyBeforeResize",
+		fields: []kField{{"sl.size", "cap"}},
+		slices: []kSlice{layoutSignals}, model: "Acme.Layout.verifyResize"},
 }
+
+var moreKernelSpecs = []kernelSpec{
+	// enum / multiplexer sizes (callers of calcEnumSize / calcSizeFromValue)
+	{pkg: "acmelib", file: "signal_enum.go", goName: "SignalEnum.getMaxIndexWith", lean: "getMaxIndexWith",
+		fields: []kField{{"value.entityID", "id"}},
+		slices: []kSlice{{kField: kField{"se.values.entries()", "vals"}, elem: "Acme.GoSem.IdIndex",
+			proj: map[string]string{"entityID": "id", "index": "index"}, isMap: true}},
+		idTypes: []string{"EntityID"}, model: "Acme.Payload.maxIndexWith"},
+	{pkg: "acmelib", file: "signal_enum.go", goName: "SignalEnum.GetSize", lean: "enumGetSize",
+		fields: []kField{{"se.minSize", "minSize"}, {"se.maxIndex", "maxIndex"}}, model: "Acme.Arith.enumSize"},
+	{pkg: "acmelib", file: "mux_signal.go", goName: "MultiplexerSignal.GetGroupCountSize", lean: "getGroupCountSize",
+		fields: []kField{{"ms.groupCount", "groupCount"}}, model: "Acme.Arith.muxSelWidth"},
+	{pkg: "acmelib", file: "mux_signal.go", goName: "MultiplexerSignal.GetSize", lean: "muxGetSize",
+		fields: []kField{{"ms.groupSize", "groupSize"}, {"ms.GetGroupCountSize()", "groupCountSize"}},
+		model:  "groupSize + Acme.Arith.muxSelWidth groupCount (composed with getGroupCountSize)"},
+}
+
+func init() { kernelSpecs = append(kernelSpecs, moreKernelSpecs...) }
+
+// `sl.signals` of a SignalLayout: the signals in slice order, each seen as an Acme.Layout.Slot
+// (entity id, relative start position, size).
+var layoutSignals = kSlice{
+	kField: kField{"sl.signals", "sigs"},
+	elem:   "Acme.Layout.Slot",
+	proj:   map[string]string{"EntityID": "id", "GetRelativeStartPos": "start", "GetSize": "size"},
+}
+
+// modules imported by the generated file: the operator semantics and the element types of the
+// parameterised slices
+var kernelImports = []string{"Acme.Core.GenPrelude", "Acme.Core.Layout"}
 
 // library functions with a definition in Acme/Core/GenPrelude.lean
 var kBuiltins = map[string]struct {
@@ -95,12 +168,17 @@ const (
 	kBool                 // bool ↦ Bool
 	kExact                // float64 holding an exact integer ↦ Int (exactFloat functions only)
 	kUntyped              // untyped integer constant
+	kId                   // opaque identity (kernelSpec.idTypes) ↦ Nat, compared with == / != only
+	kElem                 // element of a parameterised slice ↦ the slice's Lean element type
+	kList                 // a parameterised slice ↦ List elem
+	kErrT                 // Go error ↦ Option Cause (nil ↦ none, a sentinel ↦ some)
 )
 
 type kType struct {
 	k      kKind
 	w      int
 	signed bool
+	elem   string // kElem / kList: the Lean element type
 }
 
 func (t kType) lean() string {
@@ -111,6 +189,14 @@ func (t kType) lean() string {
 		return fmt.Sprintf("BitVec %d", t.w)
 	case kBool:
 		return "Bool"
+	case kId:
+		return "Nat"
+	case kElem:
+		return t.elem
+	case kList:
+		return "List " + t.elem
+	case kErrT:
+		return "Option Cause"
 	}
 	return "?"
 }
@@ -128,6 +214,14 @@ func (t kType) String() string {
 		return "bool"
 	case kExact:
 		return "float64(exact integer)"
+	case kId:
+		return "identity"
+	case kElem:
+		return "slice element"
+	case kList:
+		return "slice"
+	case kErrT:
+		return "error"
 	}
 	return "untyped constant"
 }
@@ -141,6 +235,27 @@ type kLet struct {
 	decl      bool // declares the variable (:= / var) rather than assigning to it
 }
 type kRet struct{ val string }
+type kBreak struct{}
+type kContinue struct{}
+
+// kIndex: name := list[idx]; an index out of range is the result `Res.panic`
+type kIndex struct {
+	name, list, idx string
+	ty              kType
+}
+
+// kLoop: for idx, elem := range list { body }
+type kLoop struct {
+	list, elem, idx string
+	elemTy          kType
+	body            []kStmt
+	vars            []kVar // the variables visible at the loop, in declaration order
+	pos             token.Pos
+}
+type kVar struct {
+	name string
+	ty   kType
+}
 type kIf struct {
 	cond      string
 	then, els []kStmt
@@ -152,6 +267,8 @@ type kernelOut struct {
 	spec   *kernelSpec
 	params []string // "(name : Type)"
 	res    []kType
+	resTy  string   // the Lean result type
+	aux    []string // auxiliary definitions preceding the main one
 	body   string
 	src    string
 	plain  bool // the Lean parameters are exactly the Go parameters (callable from other kernels)
@@ -170,9 +287,18 @@ type ktr struct {
 	fields map[string]*kFieldUse
 	vars   map[types.Object]string // visible variables ↦ Lean name
 	names  map[string]kType        // visible Lean names
+	scope  []kVar                  // the same, in declaration order
 	funcs  map[types.Object]*kernelOut
 	res    []kType
+
+	inLoop, inSwitch int
+	mayPanic         bool     // contains an index expression: the result is wrapped in GoSem.Res
+	aux              []string // auxiliary definitions (loops and their continuations), in order
+	nloops           int
+	loop             *kLoopCtx
 }
+
+type kLoopCtx struct{ brk, cont string }
 
 type kFieldUse struct {
 	f    kField
@@ -220,6 +346,17 @@ func unparen(e ast.Expr) ast.Expr {
 }
 
 func (t *ktr) typeOf(ty types.Type, at ast.Node) kType {
+	ty = types.Unalias(ty)
+	if types.Identical(ty, types.Universe.Lookup("error").Type()) {
+		return kType{k: kErrT}
+	}
+	if nt, ok := ty.(*types.Named); ok {
+		for _, n := range t.spec.idTypes {
+			if nt.Obj().Name() == n {
+				return kType{k: kId}
+			}
+		}
+	}
 	b, ok := ty.Underlying().(*types.Basic)
 	if !ok {
 		t.fail(at, "value of type %s (only integer and bool types are supported)", ty)
@@ -327,7 +464,7 @@ func (t *ktr) expr(e ast.Expr) (string, kType) {
 		if !ok {
 			t.fail(x, "identifier `%s` is not an integer / bool parameter or a local variable of the kernel", x.Name)
 		}
-		return name, t.typeOf(obj.Type(), x)
+		return name, t.names[name]
 	case *ast.BinaryExpr:
 		switch x.Op {
 		case token.EQL, token.NEQ, token.LSS, token.LEQ, token.GTR, token.GEQ, token.LAND, token.LOR:
@@ -360,10 +497,48 @@ func (t *ktr) expr(e ast.Expr) (string, kType) {
 	case *ast.CallExpr:
 		return t.call(x)
 	case *ast.SelectorExpr:
+		if s, ty, ok := t.projection(x.X, x.Sel.Name, x); ok {
+			return s, ty
+		}
 		t.fail(x, "field / package member read `%s` that is not in the parameterisation table of %s", exprStr(x), t.spec.goName)
+	case *ast.IndexExpr:
+		t.fail(x, "index expression `%s` that is not the whole right-hand side of a `:=` definition", exprStr(x))
 	}
 	t.fail(e, "expression `%s` (%T)", exprStr(e), e)
 	return "", kType{}
+}
+
+func (t *ktr) isMapParam(name string) bool {
+	for _, sl := range t.spec.slices {
+		if sl.name == name {
+			return sl.isMap
+		}
+	}
+	return false
+}
+
+// projection translates `x.M()` / `x.f` for a variable x that holds an element of a
+// parameterised slice.
+func (t *ktr) projection(recv ast.Expr, member string, at ast.Expr) (string, kType, bool) {
+	id, ok := unparen(recv).(*ast.Ident)
+	if !ok {
+		return "", kType{}, false
+	}
+	name, ok := t.vars[t.info.Uses[id]]
+	if !ok || t.names[name].k != kElem {
+		return "", kType{}, false
+	}
+	for _, sl := range t.spec.slices {
+		if sl.elem != t.names[name].elem {
+			continue
+		}
+		p, ok := sl.proj[member]
+		if !ok {
+			t.fail(at, "member `%s` of an element of `%s` is not in the projection table of %s", member, sl.expr, t.spec.goName)
+		}
+		return "(" + name + "." + p + ")", t.typeOf(t.info.Types[at].Type, at), true
+	}
+	return "", kType{}, false
 }
 
 func (t *ktr) conv(a string, from, to kType, at ast.Node) string {
@@ -413,6 +588,20 @@ func (t *ktr) call(c *ast.CallExpr) (string, kType) {
 		to := t.typeOf(tvf.Type, c)
 		a, from := t.expr(c.Args[0])
 		return t.conv(a, from, to, c), to
+	}
+	if sel, ok := fun.(*ast.SelectorExpr); ok && len(c.Args) == 0 {
+		if s, ty, ok := t.projection(sel.X, sel.Sel.Name, c); ok {
+			return s, ty
+		}
+	}
+	if id, ok := fun.(*ast.Ident); ok && id.Name == "len" && len(c.Args) == 1 {
+		if _, isBuiltin := t.info.Uses[id].(*types.Builtin); isBuiltin {
+			a, at := t.expr(c.Args[0])
+			if at.k != kList {
+				t.fail(c, "len of a %s (only the length of a parameterised slice is supported)", at)
+			}
+			return "(Int.ofNat (List.length " + a + "))", kType{k: kInt}
+		}
 	}
 	var obj types.Object
 	switch f := fun.(type) {
@@ -575,6 +764,10 @@ func (t *ktr) compare(at ast.Node, x ast.Expr, op token.Token, y ast.Expr) strin
 	}
 	ordered := op != token.EQL && op != token.NEQ
 	switch {
+	case aty.k == kElem, aty.k == kList, aty.k == kErrT:
+		t.fail(at, "comparison of %ss", aty)
+	case aty.k == kId && ordered:
+		t.fail(at, "ordered comparison %s of opaque identities", op)
 	case aty.k == kBool && ordered, aty.k == kExact:
 		t.fail(at, "comparison %s on %s", op, aty)
 	case aty.k == kBV && aty.signed && ordered:
@@ -622,6 +815,9 @@ func (t *ktr) prop(e ast.Expr) string {
 
 // boolExpr translates an expression of any supported type in value position.
 func (t *ktr) value(e ast.Expr, want kType) string {
+	if want.k == kErrT {
+		return t.errValue(e)
+	}
 	s, ty := t.expr(e)
 	if ty.k == kUntyped && want.k != kBool {
 		ty = want
@@ -630,6 +826,60 @@ func (t *ktr) value(e ast.Expr, want kType) string {
 		t.fail(e, "`%s` has type %s where %s is expected", exprStr(e), ty, want)
 	}
 	return s
+}
+
+// kCauses: the error sentinels returned by the translated kernels (constructors of `Cause`).
+var kCauses = map[string]bool{}
+
+// errValue translates an error result: nil, a sentinel `ErrX`, or `&T{.., Err: ErrX}` (the
+// struct type T and its other fields are ignored: the sentinel is what the model compares).
+func (t *ktr) errValue(e ast.Expr) string {
+	e = unparen(e)
+	sentinel := func(x ast.Expr) (string, bool) {
+		id, ok := unparen(x).(*ast.Ident)
+		if !ok {
+			return "", false
+		}
+		v, ok := t.info.Uses[id].(*types.Var)
+		if !ok || v.Pkg() == nil || v.Parent() != v.Pkg().Scope() || !strings.HasPrefix(id.Name, "Err") ||
+			!types.Identical(v.Type(), types.Universe.Lookup("error").Type()) {
+			return "", false
+		}
+		kCauses[id.Name] = true
+		return "(some Cause." + id.Name + ")", true
+	}
+	if id, ok := e.(*ast.Ident); ok {
+		if _, isNil := t.info.Uses[id].(*types.Nil); isNil {
+			return "none"
+		}
+		if s, ok := sentinel(id); ok {
+			return s
+		}
+	}
+	if u, ok := e.(*ast.UnaryExpr); ok && u.Op == token.AND {
+		if cl, ok := u.X.(*ast.CompositeLit); ok {
+			var found string
+			for _, el := range cl.Elts {
+				kv, ok := el.(*ast.KeyValueExpr)
+				if !ok {
+					t.fail(e, "error literal `%s` without field names", exprStr(e))
+				}
+				if k, ok := kv.Key.(*ast.Ident); ok && k.Name == "Err" {
+					s, ok := sentinel(kv.Value)
+					if !ok {
+						t.fail(kv, "error cause `%s` that is not a package-level sentinel Err*", exprStr(kv.Value))
+					}
+					found = s
+				}
+			}
+			if found == "" {
+				t.fail(e, "error literal `%s` without an `Err:` sentinel", exprStr(e))
+			}
+			return found
+		}
+	}
+	t.fail(e, "error result `%s` (only nil, a sentinel Err*, or &T{.., Err: Err*} are supported)", exprStr(e))
+	return ""
 }
 
 func (t *ktr) declare(id *ast.Ident, ty kType) string {
@@ -641,8 +891,12 @@ func (t *ktr) declare(id *ast.Ident, ty kType) string {
 	if _, clash := t.names[name]; clash {
 		t.fail(id, "declaration of `%s` shadows a visible variable", id.Name)
 	}
+	if name == "rest_" {
+		t.fail(id, "variable name `rest_` is reserved by the translator")
+	}
 	t.vars[obj] = name
 	t.names[name] = ty
+	t.scope = append(t.scope, kVar{name, ty})
 	return name
 }
 
@@ -655,11 +909,12 @@ func (t *ktr) block(list []ast.Stmt) []kStmt {
 	for k, v := range t.names {
 		savedN[k] = v
 	}
+	nscope := len(t.scope)
 	var out []kStmt
 	for _, s := range list {
 		out = append(out, t.stmt(s)...)
 	}
-	t.vars, t.names = savedV, savedN
+	t.vars, t.names, t.scope = savedV, savedN, t.scope[:nscope:nscope]
 	return out
 }
 
@@ -710,6 +965,21 @@ func (t *ktr) stmt(s ast.Stmt) []kStmt {
 			id, ok := x.Lhs[0].(*ast.Ident)
 			if !ok {
 				t.fail(x, "definition of `%s`", exprStr(x.Lhs[0]))
+			}
+			if ix, ok := unparen(x.Rhs[0]).(*ast.IndexExpr); ok && t.fieldMatch(ix) == nil {
+				ls, lty := t.expr(ix.X)
+				if lty.k != kList {
+					t.fail(ix, "index into a %s (only a parameterised slice may be indexed)", lty)
+				}
+				idx := t.value(ix.Index, kType{k: kInt})
+				if id.Name == "_" {
+					t.fail(ix, "index expression assigned to _")
+				}
+				if t.isMapParam(ls) {
+					t.fail(ix, "index into the map `%s`", exprStr(ix.X))
+				}
+				ety := kType{k: kElem, elem: lty.elem}
+				return []kStmt{kIndex{t.declare(id, ety), ls, idx, ety}}
 			}
 			rhs, ty := t.expr(x.Rhs[0])
 			if ty.k == kUntyped {
@@ -795,11 +1065,13 @@ func (t *ktr) stmt(s ast.Stmt) []kStmt {
 		for _, c := range x.Body.List {
 			cc := c.(*ast.CaseClause)
 			for _, b := range cc.Body {
-				if _, isBr := b.(*ast.BranchStmt); isBr {
+				if br, isBr := b.(*ast.BranchStmt); isBr && br.Tok != token.CONTINUE {
 					t.fail(b, "break / fallthrough in a switch")
 				}
 			}
+			t.inSwitch++
 			body := t.block(cc.Body)
+			t.inSwitch--
 			if cc.List == nil {
 				deflt = body
 				continue
@@ -826,8 +1098,82 @@ func (t *ktr) stmt(s ast.Stmt) []kStmt {
 			cur = []kStmt{kIf{clauses[i].cond, clauses[i].body, cur, "switch", x.Pos()}}
 		}
 		return cur
-	case *ast.ForStmt, *ast.RangeStmt:
-		t.fail(s, "loop (%T)", s)
+	case *ast.BranchStmt:
+		if x.Label != nil {
+			t.fail(x, "labelled %s", x.Tok)
+		}
+		if t.inLoop == 0 {
+			t.fail(x, "%s outside a translated loop", x.Tok)
+		}
+		switch x.Tok {
+		case token.BREAK:
+			if t.inSwitch > 0 {
+				t.fail(x, "break inside a switch inside a loop")
+			}
+			return []kStmt{kBreak{}}
+		case token.CONTINUE:
+			return []kStmt{kContinue{}}
+		}
+		t.fail(x, "%s statement", x.Tok)
+	case *ast.LabeledStmt:
+		t.fail(x, "label `%s`", x.Label.Name)
+	case *ast.RangeStmt:
+		if t.inLoop > 0 {
+			t.fail(x, "nested loop")
+		}
+		if x.Tok != token.DEFINE && (x.Key != nil || x.Value != nil) {
+			t.fail(x, "range loop that assigns existing variables")
+		}
+		ls, lty := t.expr(x.X)
+		if lty.k != kList {
+			t.fail(x, "range over `%s` (only a parameterised slice may be iterated)", exprStr(x.X))
+		}
+		lp := kLoop{list: ls, elem: "_", elemTy: kType{k: kElem, elem: lty.elem}, pos: x.Pos(),
+			vars: append([]kVar(nil), t.scope...)}
+		// scope of the key / value variables and of the body
+		savedV := map[types.Object]string{}
+		for k, v := range t.vars {
+			savedV[k] = v
+		}
+		savedN := map[string]kType{}
+		for k, v := range t.names {
+			savedN[k] = v
+		}
+		nscope := len(t.scope)
+		if id, ok := x.Key.(*ast.Ident); x.Key != nil && (!ok || id.Name != "_") {
+			if !ok {
+				t.fail(x, "range key `%s`", exprStr(x.Key))
+			}
+			if t.isMapParam(ls) {
+				t.fail(x, "range key over the map `%s`", exprStr(x.X))
+			}
+			lp.idx = t.declare(id, kType{k: kInt})
+		}
+		if id, ok := x.Value.(*ast.Ident); x.Value != nil && (!ok || id.Name != "_") {
+			if !ok {
+				t.fail(x, "range value `%s`", exprStr(x.Value))
+			}
+			lp.elem = t.declare(id, lp.elemTy)
+		}
+		t.inLoop++
+		sw := t.inSwitch
+		t.inSwitch = 0
+		lp.body = t.block(x.Body.List)
+		t.inSwitch = sw
+		t.inLoop--
+		t.vars, t.names, t.scope = savedV, savedN, t.scope[:nscope:nscope]
+		var asg []kLet
+		outerAssigned(lp.body, map[string]bool{}, map[string]bool{}, &asg)
+		for _, a := range asg {
+			if a.name == lp.idx || a.name == lp.elem {
+				t.fail(x, "loop body assigns the range variable `%s`", a.name)
+			}
+		}
+		return []kStmt{lp}
+	case *ast.ForStmt:
+		t.fail(s, "for loop with init / condition / post (only `for .. := range <parameterised slice>` is translated)")
+	case *ast.GoStmt, *ast.DeferStmt, *ast.SelectStmt, *ast.SendStmt:
+		t.fail(s, "statement %T", s)
 	}
 	t.fail(s, "statement `%s` (%T)", exprStr(s), s)
 	return nil
@@ -835,12 +1181,13 @@ func (t *ktr) stmt(s ast.Stmt) []kStmt {
 
 // ---- emission ----
 
+// terminates: control never reaches the statement after ss (return / break / continue on all paths)
 func terminates(ss []kStmt) bool {
 	if len(ss) == 0 {
 		return false
 	}
 	switch x := ss[len(ss)-1].(type) {
-	case kRet:
+	case kRet, kBreak, kContinue:
 		return true
 	case kIf:
 		return terminates(x.then) && terminates(x.els)
@@ -848,13 +1195,32 @@ func terminates(ss []kStmt) bool {
 	return false
 }
 
-func hasReturn(ss []kStmt) bool {
+// hasJump: ss contains a return / break / continue / loop / index (which may leave with a panic)
+func hasJump(ss []kStmt) bool {
 	for _, s := range ss {
 		switch x := s.(type) {
-		case kRet:
+		case kRet, kBreak, kContinue, kLoop, kIndex:
 			return true
 		case kIf:
-			if hasReturn(x.then) || hasReturn(x.els) {
+			if hasJump(x.then) || hasJump(x.els) {
+				return true
+			}
+		}
+	}
+	return false
+}
+
+func hasIndex(ss []kStmt) bool {
+	for _, s := range ss {
+		switch x := s.(type) {
+		case kIndex:
+			return true
+		case kIf:
+			if hasIndex(x.then) || hasIndex(x.els) {
+				return true
+			}
+		case kLoop:
+			if hasIndex(x.body) {
 				return true
 			}
 		}
@@ -874,6 +1240,8 @@ func outerAssigned(ss []kStmt, declared map[string]bool, seen map[string]bool, o
 				seen[x.name] = true
 				*out = append(*out, x)
 			}
+		case kIndex:
+			declared[x.name] = true
 		case kIf:
 			for _, br := range [][]kStmt{x.then, x.els} {
 				d := map[string]bool{}
@@ -882,25 +1250,101 @@ func outerAssigned(ss []kStmt, declared map[string]bool, seen map[string]bool, o
 				}
 				outerAssigned(br, d, seen, out)
 			}
+		case kLoop:
+			d := map[string]bool{}
+			for k := range declared {
+				d[k] = true
+			}
+			outerAssigned(x.body, d, seen, out)
 		}
 	}
 }
 
 func pad(n int) string { return strings.Repeat("  ", n) }
 
+// resLean is the Lean result type of the kernel (and of its loops and continuations).
+func (t *ktr) resLean() string {
+	var rs []string
+	for _, r := range t.res {
+		rs = append(rs, r.lean())
+	}
+	r := strings.Join(rs, " × ")
+	if t.mayPanic {
+		return "Acme.GoSem.Res (" + r + ")"
+	}
+	return r
+}
+
+func varParams(vs []kVar) (params, args string) {
+	for _, v := range vs {
+		params += " (" + v.name + " : " + v.ty.lean() + ")"
+		args += " " + v.name
+	}
+	return
+}
+
+// emit prints the statements ss as a Lean term; k prints what follows when control reaches the
+// end of ss.  A loop `for i, x := range l { body }; rest` becomes two definitions over ALL the
+// variables vs visible at the loop:
+//
+//	F_afterN vs           := rest
+//	F_loopN  vs [i]       : List elem → result
+//	  | []          => F_afterN vs
+//	  | x :: rest_  => body     with  return e ↦ e,  break ↦ F_afterN vs,
+//	                                  continue / end of body ↦ F_loopN vs [(i+1)] rest_
+//
+// (assignments shadow, so `vs` at a jump denotes the current values: loop-carried variables are
+// accumulator arguments) and the loop statement itself becomes `F_loopN vs [0] l`.
 func (t *ktr) emit(ss []kStmt, ind int, k func(ind int) string) string {
 	if len(ss) == 0 {
 		return k(ind)
 	}
 	rest := func(ind int) string { return t.emit(ss[1:], ind, k) }
+	only := func(what string) {
+		if len(ss) > 1 {
+			panic(kErr{token.NoPos, "statements after a " + what})
+		}
+	}
 	switch s := ss[0].(type) {
 	case kRet:
-		if len(ss) > 1 {
-			panic(kErr{token.NoPos, "statements after a return"})
+		only("return")
+		if t.mayPanic {
+			return pad(ind) + "(Acme.GoSem.Res.val " + s.val + ")\n"
 		}
 		return pad(ind) + s.val + "\n"
+	case kBreak:
+		only("break")
+		return pad(ind) + t.loop.brk + "\n"
+	case kContinue:
+		only("continue")
+		return pad(ind) + t.loop.cont + "\n"
 	case kLet:
 		return pad(ind) + "let " + s.name + " : " + s.ty.lean() + " := " + s.rhs + "\n" + rest(ind)
+	case kIndex:
+		return pad(ind) + "match Acme.GoSem.index? " + s.list + " " + s.idx + " with\n" +
+			pad(ind) + "| none => Acme.GoSem.Res.panic\n" +
+			pad(ind) + "| some " + s.name + " =>\n" + rest(ind+1)
+	case kLoop:
+		t.nloops++
+		loopName := fmt.Sprintf("%s_loop%d", t.spec.lean, t.nloops)
+		afterName := fmt.Sprintf("%s_after%d", t.spec.lean, t.nloops)
+		params, args := varParams(s.vars)
+		// what follows the loop (may contain further loops: their definitions come first)
+		after := t.emit(ss[1:], 1, k)
+		t.aux = append(t.aux, "def "+afterName+params+" : "+t.resLean()+" :=\n"+after+"\n")
+		idxParam, idxNext, idxInit := "", "", ""
+		if s.idx != "" {
+			idxParam, idxNext, idxInit = " ("+s.idx+" : Int)", " ("+s.idx+" + (1 : Int))", " (0 : Int)"
+		}
+		saved := t.loop
+		t.loop = &kLoopCtx{brk: "(" + afterName + args + ")", cont: "(" + loopName + args + idxNext + " rest_)"}
+		cont := t.loop.cont
+		body := t.emit(s.body, 2, func(ind int) string { return pad(ind) + cont + "\n" })
+		brk := t.loop.brk
+		t.loop = saved
+		t.aux = append(t.aux, "def "+loopName+params+idxParam+" : List "+s.elemTy.elem+" → "+t.resLean()+"\n"+
+			"  | [] => "+brk+"\n  | "+s.elem+" :: rest_ =>\n"+body+"\n")
+		return pad(ind) + "(" + loopName + args + idxInit + " " + s.list + ")\n"
 	case kIf:
 		tT, tE := terminates(s.then), terminates(s.els)
 		if tT || tE {
@@ -910,23 +1354,29 @@ func (t *ktr) emit(ss []kStmt, ind int, k func(ind int) string) string {
 			return pad(ind) + "if " + s.cond + " then\n" + t.emit(s.then, ind+1, rest) +
 				pad(ind) + "else\n" + t.emit(s.els, ind+1, rest)
 		}
-		if hasReturn(s.then) || hasReturn(s.els) {
-			panic(kErr{s.pos, s.what + " with a branch that returns on some paths only"})
+		if hasJump(s.then) || hasJump(s.els) {
+			panic(kErr{s.pos, s.what + " with a branch that returns / breaks / continues / loops / indexes on some paths only"})
 		}
 		var vars []kLet
 		outerAssigned([]kStmt{s}, map[string]bool{}, map[string]bool{}, &vars)
-		if len(vars) != 1 {
-			var ns []string
-			for _, v := range vars {
-				ns = append(ns, v.name)
-			}
-			panic(kErr{s.pos, fmt.Sprintf("%s without return that assigns %d outer variables %v (exactly one is supported)", s.what, len(vars), ns)})
+		if len(vars) == 0 {
+			panic(kErr{s.pos, s.what + " without effect (no return and no assignment to an outer variable)"})
 		}
-		v := vars[0]
-		kv := func(ind int) string { return pad(ind) + v.name + "\n" }
-		return pad(ind) + "let " + v.name + " : " + v.ty.lean() + " :=\n" +
+		// join: the outer variables assigned in the branches are the value of the conditional
+		var ns, ts []string
+		for _, v := range vars {
+			ns = append(ns, v.name)
+			ts = append(ts, v.ty.lean())
+		}
+		pat := ns[0]
+		if len(ns) > 1 {
+			pat = "(" + strings.Join(ns, ", ") + ")"
+		}
+		kv := func(ind int) string { return pad(ind) + pat + "\n" }
+		r := pad(ind) + "let " + pat + " : " + strings.Join(ts, " × ") + " :=\n" +
 			pad(ind+1) + "if " + s.cond + " then\n" + t.emit(s.then, ind+2, kv) +
-			pad(ind+1) + "else\n" + t.emit(s.els, ind+2, kv) + rest(ind)
+			pad(ind+1) + "else\n" + t.emit(s.els, ind+2, kv)
+		return r + rest(ind)
 	}
 	panic(kErr{token.NoPos, fmt.Sprintf("internal: statement %T", ss[0])})
 }
@@ -975,7 +1425,15 @@ func translateKernel(spec *kernelSpec, p *packages.Package, funcs map[types.Obje
 	}
 
 	// the parameterisation table: type and root of every listed expression
-	for _, f := range spec.fields {
+	allFields := append([]kField(nil), spec.fields...)
+	sliceElem := map[string]string{}
+	sliceIsMap := map[string]bool{}
+	for _, sl := range spec.slices {
+		allFields = append(allFields, sl.kField)
+		sliceElem[sl.expr] = sl.elem
+		sliceIsMap[sl.expr] = sl.isMap
+	}
+	for _, f := range allFields {
 		t.fields[f.expr] = &kFieldUse{f: f}
 	}
 	ast.Inspect(fd.Body, func(n ast.Node) bool {
@@ -985,6 +1443,22 @@ func translateKernel(spec *kernelSpec, p *packages.Package, funcs map[types.Obje
 		}
 		if f := t.fieldMatch(e); f != nil && f.root == nil {
 			f.root = rootIdent(e)
+			if el, isSlice := sliceElem[f.f.expr]; isSlice {
+				switch t.info.Types[e].Type.Underlying().(type) {
+				case *types.Slice:
+					if sliceIsMap[f.f.expr] {
+						t.fail(e, "parameterised map `%s` is a slice", f.f.expr)
+					}
+				case *types.Map:
+					if !sliceIsMap[f.f.expr] {
+						t.fail(e, "parameterised slice `%s` is a map", f.f.expr)
+					}
+				default:
+					t.fail(e, "parameterised slice `%s` is not a slice", f.f.expr)
+				}
+				f.ty = kType{k: kList, elem: el}
+				return false
+			}
 			f.ty = t.typeOf(t.info.Types[e].Type, e)
 			if f.ty.k == kUntyped {
 				t.fail(e, "parameterised expression `%s` is an untyped constant", f.f.expr)
@@ -993,7 +1467,7 @@ func translateKernel(spec *kernelSpec, p *packages.Package, funcs map[types.Obje
 		}
 		return true
 	})
-	for _, f := range spec.fields {
+	for _, f := range allFields {
 		if t.fields[f.expr].root == nil {
 			t.fail(fd, "the parameterised expression `%s` does not occur in the function any more", f.expr)
 		}
@@ -1024,20 +1498,21 @@ func translateKernel(spec *kernelSpec, p *packages.Package, funcs map[types.Obje
 			}
 			// a receiver / pointer / struct parameter: replaced by the listed reads through it
 			out.plain = false
-			for _, f := range spec.fields {
+			for _, f := range allFields {
 				fu := t.fields[f.expr]
 				if fu.root != nil && t.info.Uses[fu.root] == obj && obj != nil {
 					if _, clash := t.names[f.name]; clash {
 						t.fail(id, "parameter name %s used twice", f.name)
 					}
 					t.names[f.name] = fu.ty
+					t.scope = append(t.scope, kVar{f.name, fu.ty})
 					addParam(f.name, fu.ty)
 					placed[f.expr] = true
 				}
 			}
 		}
 	}
-	for _, f := range spec.fields {
+	for _, f := range allFields {
 		if !placed[f.expr] {
 			t.fail(fd, "the parameterised expression `%s` does not read through a parameter of the function", f.expr)
 		}
@@ -1057,8 +1532,13 @@ func translateKernel(spec *kernelSpec, p *packages.Package, funcs map[types.Obje
 	if !terminates(ir) {
 		t.fail(fd, "function body that does not end in a return on every path")
 	}
+	t.mayPanic = hasIndex(ir)
+	if t.mayPanic {
+		out.plain = false
+	}
 	out.body = t.emit(ir, 1, func(int) string { panic(kErr{fd.Pos(), "missing return"}) })
-	for _, f := range spec.fields {
+	out.resTy, out.aux = t.resLean(), t.aux
+	for _, f := range allFields {
 		if !t.fields[f.expr].used {
 			t.fail(fd, "the parameterised expression `%s` is not reached by the translation", f.expr)
 		}
@@ -1105,7 +1585,12 @@ func writeKernels(outDir string, root, dbc *packages.Package) {
 	b.WriteString("/- GENERATED by /verif/tools/extract (kernels.go) from /repo — do not edit.\n")
 	b.WriteString("   Go functions translated to Lean; proved equal to the hand-written model in\n")
 	b.WriteString("   Acme/Proofs/GenKernels.lean.  Operator semantics: Acme/Core/GenPrelude.lean. -/\n")
-	b.WriteString("import Acme.Core.GenPrelude\n\nnamespace Acme.Gen.K\n\n")
+	for _, im := range kernelImports {
+		b.WriteString("import " + im + "\n")
+	}
+	b.WriteString("\nset_option linter.unusedVariables false\n\nnamespace Acme.Gen.K\n\n")
+	head := b.String()
+	b.Reset()
 	funcs := map[types.Object]*kernelOut{}
 	var names []string
 	for i := range kernelSpecs {
@@ -1115,20 +1600,35 @@ func writeKernels(outDir string, root, dbc *packages.Package) {
 			p = dbc
 		}
 		k := translateKernel(cur, p, funcs)
-		var rs []string
-		for _, r := range k.res {
-			rs = append(rs, r.lean())
-		}
 		b.WriteString("/- " + cur.file + ", " + cur.goName + "   (hand model: " + cur.model + ")\n\n")
 		b.WriteString(k.src + "\n-/\n")
-		b.WriteString("def " + cur.lean + " " + strings.Join(k.params, " ") + " : " + strings.Join(rs, " × ") + " :=\n")
+		for _, a := range k.aux {
+			b.WriteString(a)
+		}
+		b.WriteString("def " + cur.lean + " " + strings.Join(k.params, " ") + " : " + k.resTy + " :=\n")
 		b.WriteString(k.body + "\n")
 		names = append(names, "("+leanStr(cur.lean)+", "+leanStr(cur.file)+", "+leanStr(cur.goName)+")")
 	}
 	b.WriteString("/-- the translated kernels: (definition, file, Go function) -/\n")
 	b.WriteString("def kernels : List (String × String × String) := [\n  " + strings.Join(names, ",\n  ") + "\n]\n\n")
 	b.WriteString("end Acme.Gen.K\n")
-	if err := os.WriteFile(path, []byte(b.String()), 0o644); err != nil {
+	// the error sentinels that occur in the translated kernels
+	var causes []string
+	for c := range kCauses {
+		causes = append(causes, c)
+	}
+	sort.Strings(causes)
+	cause := "/-- the error sentinels (package-level `Err*` variables) returned by the translated kernels;\n" +
+		"    a Go `error` result is `Option Cause`: `nil` ↦ `none`, `ErrX` or `&T{.., Err: ErrX}` ↦ `some .ErrX` -/\n" +
+		"inductive Cause where\n"
+	for _, c := range causes {
+		cause += "  | " + c + "\n"
+	}
+	cause += "  deriving Repr, DecidableEq\n\n"
+	if len(causes) == 0 {
+		cause = ""
+	}
+	if err := os.WriteFile(path, []byte(head+cause+b.String()), 0o644); err != nil {
 		panic(err)
 	}
 }
